@@ -17,7 +17,9 @@ EXPLANATION = (
     "and the three drivers (statement conversion, expression rewriting, unparsing) must be cycle "
     "free; C17-R2 flags calls whose stdlib summary says 'recursive on the depth of its argument' "
     "(ast.unparse) applied to the converter's output; C17-R3 computes depth(template): a template "
-    "that nests one level per element of a user list turns program LENGTH into tree depth."
+    "that nests one level per element of a user list turns program LENGTH into tree depth; "
+    "C17-R4 chain slots of the unparser do not parenthesise the same-kind child; C05-IB instance: "
+    "_iter_branch opens one guard level per interrupt, not per statement."
 )
 ASSUMPTIONS = [
     "the parser limits bracket nesting (about 200 levels), so recursion over target/index patterns is bounded",
